@@ -1,5 +1,5 @@
 (* C11, third clause: wsutil.DebugDialer / wsutil.DebugUpgrader against the full model
-   (coq/model/HsDebugFull.v).  Kinds DFD / DFU (harness/zz_dbgfull.go).
+   (coq/model/HsDebugFull.v).  Kinds DFD / DFU / DBH (harness/zz_dbgfull.go).
    Viol: the Go observation contradicts the property text (outcome changed, callback bytes wrong,
    post-handshake bytes lost).  Diff: model and Go differ, or a hypothesis about net/http that the
    theorems assume does not hold of the observed net/http behaviour. *)
@@ -97,23 +97,30 @@ let () =
   register "DFU" (fun i o -> match i, o with
     | _req :: _sizes :: rest,
       [pcls; pproto; pexts; pout; prest; cls; proto; exts; out; crest; nreq; gotreq; nresp; gotresp;
-       actual; hreads; _ans; captured; same] ->
+       actual; hreads; ans; captured; same; order] ->
       let setreq = List.nth rest 9 = "1" and setresp = List.nth rest 10 = "1" in
       let chunks = dec_chunks actual in
       let all = List.concat chunks in
+      let ans = int_of_string ans in
+      let got = bytes_of_hex gotreq in
       if cls = "panic" || pcls = "panic" then Viol "panic"
       else if cls <> pcls || proto <> pproto || exts <> pexts || out <> pout then Viol "DebugUpgrader changes the outcome"
       else if setreq && nreq <> "1" then Viol "OnRequest not called exactly once"
       else if setresp && nresp <> "1" then Viol "OnResponse not called exactly once"
       else if (not setreq && nreq <> "0") || (not setresp && nresp <> "0") then Viol "callback called though not set"
+      else if setreq && setresp && order <> "qr" then Viol "OnResponse runs before OnRequest"
       else if setresp && gotresp <> out then Viol "OnResponse does not receive exactly the response bytes"
-      else if setreq && not (starts_with (bytes_of_hex gotreq) all) then Viol "OnRequest receives bytes the client did not send"
+      else if setreq && not (starts_with got all) then Viol "OnRequest receives bytes the client did not send"
+      else if setreq && cls = "ok" && (match head_end_chk all with
+                                       | Some h -> List.length got < h
+                                       | None -> true) then Viol "OnRequest does not receive the whole request"
+      else if setreq && cls = "ok" && got @ bytes_of_hex crest <> all then Viol "bytes neither reported nor left on the conn"
       else if setreq && same <> "1" then Diff "hypothesis on net/http fails: net/http reads differently on the same chunks"
       else begin
         ignore prest;
         let (ucfg, stext) = dec_ucfg (take_n 9 rest) in
         let b = HsBufio.pool_buf_size N0 default_server_read_buffer in
-        let w = HsDebugFull.debug_upgrader_full wcut1 setreq setresp stext ucfg b (sizes_of hreads) chunks HsBufio.TEof in
+        let w = HsDebugFull.debug_upgrader_full (parse_fun ans) wcut1 setreq setresp stext ucfg b (sizes_of hreads) chunks HsBufio.TEof in
         let r = w.HsDebugFull.fu_res in
         let mcls = class_of_uerr r.HsUpgrader.u_err in
         if mcls <> cls then Diff ("model outcome " ^ mcls)
@@ -121,9 +128,19 @@ let () =
         else if List.concat w.HsDebugFull.fu_conn_out <> bytes_of_hex out then Diff "model response differs"
         else if opt_tok w.HsDebugFull.fu_on_request <> obs_tok nreq gotreq then Diff "model OnRequest differs"
         else if opt_tok w.HsDebugFull.fu_on_response <> obs_tok nresp gotresp then Diff "model OnResponse differs"
-        else if setreq && bytes_of_hex captured <> bytes_of_hex gotreq then Diff "captured bytes differ"
+        else if setreq && fst (HsDebugFull.tee_fetch (sizes_of hreads) [] chunks) <> bytes_of_hex captured then Diff "model captured bytes differ"
         else if List.concat w.HsDebugFull.fu_conn <> bytes_of_hex crest then Diff "model conn remainder differs"
-        else if setreq && bytes_of_hex gotreq @ bytes_of_hex crest <> all && cls = "ok" then Viol "bytes neither reported nor left on the conn"
         else Pass true
       end
+    | _ -> Diff "malformed line");
+
+  (* a wrapper that is still blocked when the watchdog fires, where the plain handshake has returned *)
+  register "DBH" (fun i o -> match i, o with
+    | [scenario], [plain; debug] ->
+      let v s = match String.index_opt s '=' with Some k -> String.sub s (k + 1) (String.length s - k - 1) | None -> s in
+      let plain = v plain and debug = v debug in
+      if plain = "hang" then Pass false      (* void: the plain handshake did not return either *)
+      else if debug = "hang" then Viol ("the debugging wrapper blocks where the plain handshake returns (" ^ scenario ^ ")")
+      else if debug <> plain then Viol ("the debugging wrapper changes the outcome (" ^ scenario ^ ")")
+      else Pass true
     | _ -> Diff "malformed line")
